@@ -1,0 +1,15 @@
+//go:build verif
+
+package crl
+
+import "github.com/gr33nbl00d/caddy-revocation-validator/crl/crlrepository"
+
+// VerifRepository exposes the repository to verification harnesses.
+func (c *CRLRevocationChecker) VerifRepository() *crlrepository.Repository {
+	return c.crlRepository
+}
+
+// VerifUpdateCRLs runs the same update pass the ticker runs, synchronously.
+func (c *CRLRevocationChecker) VerifUpdateCRLs(force bool) {
+	c.updateCRLs(force)
+}
